@@ -272,6 +272,44 @@ def is_aliased(mod, n):
     return False
 
 
+def _stored_raw(fi, node):
+    """The value of ``node`` itself -- not a text made from it (``repr(v)``, ``'%r' % v``, an f-string), not the result of a
+    call it is handed to -- is put into a container / returned / yielded: the object, not a description of it, is listed."""
+    mod = fi.mod
+    cur = node
+    while True:
+        par = mod.parents.get(cur)
+        if isinstance(par, (ast.IfExp, ast.BoolOp)):
+            if isinstance(par, ast.IfExp) and par.test is cur:
+                return False
+        elif isinstance(par, (ast.Tuple, ast.List, ast.Set, ast.Starred)):
+            pass
+        elif isinstance(par, ast.Dict):
+            if not any(cur is v for v in par.values):
+                return False
+        elif isinstance(par, ast.keyword):
+            call = mod.parents.get(par)
+            return isinstance(call, ast.Call) and (call_name(call) == 'dict' or call_tail(call) in ('update', 'setdefault'))
+        elif isinstance(par, ast.Call):
+            return par.func is not cur and call_tail(par) in ('append', 'add', 'insert', 'extend', 'setdefault', 'update') and \
+                isinstance(par.func, ast.Attribute) and any(cur is a for a in par.args)
+        elif isinstance(par, (ast.Assign, ast.AnnAssign, ast.AugAssign)):
+            if par.value is not cur:
+                return False
+            if cur is node and is_aliased(mod, node):
+                return False          # a plain alias: the new name carries the tag and is judged where it is used
+            return True
+        elif isinstance(par, (ast.Return, ast.Yield, ast.YieldFrom)):
+            return True
+        elif isinstance(par, (ast.ListComp, ast.SetComp, ast.GeneratorExp)):
+            return par.elt is cur
+        elif isinstance(par, ast.DictComp):
+            return par.value is cur
+        else:
+            return False
+        cur = par
+
+
 def expr_conds(fi, node):
     """Conditions (test, polarity) known to hold whenever the expression ``node`` is evaluated: the path conditions of
     its statement (CFG: if / elif / guard clauses / named conditions) plus what the expression context adds --
@@ -411,7 +449,7 @@ class _Site(object):
     def __init__(self, fi, where, kname, vname, kind='items'):
         self.fi, self.where, self.kname, self.vname, self.kind = fi, where, kname, vname, kind
         self.binder = None      # the For / comprehension generator / unpacking assignment that binds key and value
-        self.uses, self.bad, self.rebinds, self.markers = [], [], [], []
+        self.uses, self.bad, self.rebinds, self.markers, self.raw = [], [], [], [], []
         self.shown = False
         self._seen = set()
 
@@ -1031,6 +1069,8 @@ class _Taint(object):
         par = fi.mod.parents.get(n)
         if self.polarity(fi, n, k) == -1:
             site.use(fi, n, True)
+            if _stored_raw(fi, n):
+                site.raw.append((fi, n))
         elif is_aliased(fi.mod, n) and isinstance(n, (ast.Name, ast.Subscript)):
             site.use(fi, n, True)      # alias: the new name carries the tag, its uses are judged
         elif isinstance(n, (ast.Name, ast.Subscript)) and self._stored_in_field(fi, n, tag) is not None:
@@ -1312,6 +1352,11 @@ def _report_taint(rep, rule, tn, note=''):
                   'a resource value is used without the "secret" test being false (%d unguarded uses%s) or no redaction marker is produced'
                   % (len(site.bad), ', first in %s: %s' % (site.bad[0][0].qualname, short(fi.mod.parents.get(site.bad[0][1]), 60)) if site.bad else ''),
                   fi.mod, site.bad[0][1] if site.bad else site.where)
+        rep.check(rule, fkey(fi, 'value shown as text') + sfx, not site.raw,
+                  'where the value %s is listed it is turned into a text first (repr / str / format / a helper it is handed to)' % vv if not site.raw else
+                  'the resource value itself (%s), not a text made from it, is put into the listing: an arbitrary host object reaches the JSON '
+                  'encoder (TypeError => the whole view answers 500) and is never truncated' % short(site.raw[0][0].mod.parents.get(site.raw[0][1]), 60),
+                  fi.mod, site.raw[0][1] if site.raw else site.where)
         ok2 = site.shown and not site.bad
         rep.check(rule, fkey(fi, 'output value') + sfx, ok2,
                   'the listed value is the branch result (marker %r for secret names), never the raw value'
@@ -1735,6 +1780,255 @@ def _r18e(rep, repo, meta):
     rep.ok('R18.e', '%s::textual representations' % META, '%d textual representations of classes of the tree and %d methods called by the views on '
            'application / route / middleware objects judged' % (n_text, n_calls), meta)
     rep.floor('R18.e', 8)
+
+
+# ------------------------------------------------------------------------------------------ R18.f
+# Abstract kinds of the values the views put into the page context.  Only kinds the JSON encoder of the tree is *certain*
+# to reject are tracked (everything else -- texts, numbers, containers of those, attributes of host objects, results of
+# external calls -- is "unknown / fine"):
+K_CLASS, K_CALLABLE, K_EXC, K_LAZY, K_MODULE, K_INSTANCE = 'a class object', 'a function / bound method', 'an exception object', \
+    'a lazy iterator (generator / map / zip ..)', 'a module object', 'an instance of a class of the tree without a JSON form'
+SCALAR_CALLS = {'repr', 'str', 'unicode', 'ascii', 'len', 'int', 'float', 'bool', 'format', 'hex', 'oct', 'bin', 'id', 'round', 'sum', 'min', 'max',
+                'abs', 'ord', 'chr', 'hash', 'isinstance', 'issubclass', 'callable', 'hasattr', 'any', 'all', 'bytes2human'}
+MATERIALISE = {'list', 'tuple', 'sorted', 'set', 'frozenset', 'dict'}
+LAZY_CALLS = {'map', 'filter', 'zip', 'iter', 'reversed', 'enumerate'}
+LAZY_ITERTOOLS = {'chain', 'islice', 'starmap', 'groupby', 'takewhile', 'dropwhile', 'count', 'cycle', 'repeat', 'accumulate', 'product', 'zip_longest',
+                  'chain.from_iterable'}
+STORING = ('update', 'append', 'extend', 'insert', 'add', 'setdefault')
+JSON_FORM_METHODS = ('to_dict', 'asdict', 'isoformat')
+CALLABLE_ATTRS = {'endpoint', '__func__', '__call__', '__init__', 'func', 'fget'}
+TEXT_ATTRS = {'__name__', '__module__', '__doc__', '__qualname__'}
+
+
+class _Kinds(object):
+    def __init__(self, repo):
+        self.repo = repo
+        self._busy = set()
+
+    def of(self, fi, e, depth=0):
+        """{kind: node} for the rejected kinds the value of ``e`` may have (or contain)."""
+        out = {}
+        if e is None or depth > 12:
+            return out
+
+        def add(d):
+            for k, v in d.items():
+                out.setdefault(k, v)
+        if isinstance(e, (ast.Constant, ast.JoinedStr, ast.Compare, ast.UnaryOp, ast.BinOp, ast.Subscript, ast.Await)):
+            return out
+        if isinstance(e, ast.Lambda):
+            return {K_CALLABLE: e}
+        if isinstance(e, ast.GeneratorExp):
+            out[K_LAZY] = e
+            add(self.of(fi, e.elt, depth + 1))
+            return out
+        if isinstance(e, (ast.ListComp, ast.SetComp)):
+            return self.of(fi, e.elt, depth + 1)
+        if isinstance(e, ast.DictComp):
+            return self.of(fi, e.value, depth + 1)
+        if isinstance(e, ast.Dict):
+            for v in e.values:
+                add(self.of(fi, v, depth + 1))
+            return out
+        if isinstance(e, (ast.List, ast.Tuple, ast.Set)):
+            for v in e.elts:
+                add(self.of(fi, v, depth + 1))
+            return out
+        if isinstance(e, ast.Starred):
+            return self.of(fi, e.value, depth + 1)
+        if isinstance(e, ast.IfExp):
+            add(self.of(fi, e.body, depth + 1))
+            add(self.of(fi, e.orelse, depth + 1))
+            return out
+        if isinstance(e, ast.BoolOp):
+            for v in e.values:
+                add(self.of(fi, v, depth + 1))
+            return out
+        if isinstance(e, ast.NamedExpr):
+            return self.of(fi, e.value, depth + 1)
+        if isinstance(e, ast.Attribute):
+            if e.attr == '__class__':
+                return {K_CLASS: e}
+            if e.attr in TEXT_ATTRS:
+                return out
+            if e.attr in CALLABLE_ATTRS:
+                return {K_CALLABLE: e}
+            if isinstance(e.value, ast.Name) and e.value.id in ('self', 'cls') and e.value.id in fi.params()[:1]:
+                ci = _class_of(fi)
+                if ci is not None and e.attr not in ci.class_attrs:
+                    m = self.repo.find_method(ci, e.attr)
+                    if m is not None and not any(norm(d) in ('property', 'cached_property') for d in m.node.decorator_list):
+                        return {K_CALLABLE: e}
+            return out
+        if isinstance(e, ast.Call):
+            return self._call(fi, e, depth)
+        if isinstance(e, ast.Name):
+            return self._name(fi, e, depth)
+        return out
+
+    def _call(self, fi, e, depth):
+        f = e.func
+        nm = call_name(e) if isinstance(f, ast.Name) else None
+        loc = _local_names(fi)
+        if nm is not None and nm not in loc:
+            if nm == 'type' and len(e.args) == 1:
+                return {K_CLASS: e}
+            if nm in SCALAR_CALLS:
+                return {}
+            if nm in MATERIALISE:
+                out = {}
+                for a in e.args:
+                    for k, v in self.of(fi, a, depth + 1).items():
+                        if not (k == K_LAZY and v is a):
+                            out.setdefault(k, v)
+                for k in e.keywords:
+                    for kk, v in self.of(fi, k.value, depth + 1).items():
+                        out.setdefault(kk, v)
+                return out
+            if nm in LAZY_CALLS:
+                return {K_LAZY: e}
+        d = norm(f)
+        if d.startswith('itertools.') and d[len('itertools.'):] in LAZY_ITERTOOLS:
+            return {K_LAZY: e}
+        if nm is not None and nm in LAZY_ITERTOOLS and nm not in loc and (fi.mod.imports.get(nm) or ('',))[0] == 'itertools':
+            return {K_LAZY: e}
+        callee, skip = resolve_callee(self.repo, fi, e)
+        if callee is None:
+            return {}
+        if callee.name == '__init__' and skip == 1 and isinstance(f, ast.Name):
+            ci = _class_of(callee)
+            fam = [c for c in self.repo.mro(ci)] if ci is not None else []
+            if ci is not None and all(not isinstance(c, str) or c == 'object' for c in fam):
+                have = set(m for c in fam if not isinstance(c, str) for m in c.methods)
+                if not (have & set(JSON_FORM_METHODS)) and not ({'__len__', '__iter__'} <= have):
+                    return {K_INSTANCE: e}
+            return {}
+        if (callee.key, 'ret') in self._busy:
+            return {}
+        self._busy.add((callee.key, 'ret'))
+        try:
+            if _is_generator(callee):
+                return {K_LAZY: e}
+            out = {}
+            for r in returns_of(callee):
+                for k, v in self.of(callee, r.value, depth + 1).items():
+                    out.setdefault(k, v)
+            return out
+        finally:
+            self._busy.discard((callee.key, 'ret'))
+
+    def _name(self, fi, e, depth):
+        name = e.id
+        out = {}
+        if name not in _local_names(fi):
+            nested = nested_function(fi, name)
+            if nested is not None:
+                return {K_CALLABLE: e}
+            if name in fi.mod.imports and fi.mod.imports[name][1] is None:
+                return {K_MODULE: e}
+            kind, m, obj = self.repo.resolve(fi.mod, name)
+            if kind == 'func':
+                return {K_CALLABLE: e}
+            if kind == 'class':
+                return {K_CLASS: e}
+            if kind == 'module':
+                return {K_MODULE: e}
+            return out
+        key = (fi.key, name)
+        if key in self._busy:
+            return out
+        self._busy.add(key)
+        try:
+            for n in _walk(fi):
+                vals = []
+                if isinstance(n, (ast.Assign, ast.AnnAssign, ast.AugAssign)) and n.value is not None:
+                    for t in (n.targets if isinstance(n, ast.Assign) else [n.target]):
+                        if isinstance(t, ast.Name) and t.id == name:
+                            vals.append(n.value)
+                        elif isinstance(t, ast.Subscript) and _root_name(t) == name:
+                            vals.append(n.value)          # name[k] = value
+                        elif isinstance(t, (ast.Tuple, ast.List)) and isinstance(n.value, (ast.Tuple, ast.List)) and len(t.elts) == len(n.value.elts):
+                            for tt, vv in zip(t.elts, n.value.elts):
+                                if (isinstance(tt, ast.Name) and tt.id == name) or (isinstance(tt, ast.Subscript) and _root_name(tt) == name):
+                                    vals.append(vv)
+                elif isinstance(n, ast.NamedExpr) and isinstance(n.target, ast.Name) and n.target.id == name:
+                    vals.append(n.value)
+                elif isinstance(n, ast.ExceptHandler) and n.name == name:
+                    out.setdefault(K_EXC, n)
+                elif isinstance(n, (ast.FunctionDef, ast.AsyncFunctionDef)) and n.name == name:
+                    out.setdefault(K_CALLABLE, n)
+                elif isinstance(n, ast.ClassDef) and n.name == name:
+                    out.setdefault(K_CLASS, n)
+                elif isinstance(n, (ast.Import, ast.ImportFrom)) and any((a.asname or a.name.split('.')[0]) == name for a in n.names) and isinstance(n, ast.Import):
+                    out.setdefault(K_MODULE, n)
+                elif isinstance(n, ast.Call) and isinstance(n.func, ast.Attribute) and n.func.attr in STORING and _root_name(n.func.value) == name:
+                    vals.extend(n.args[-1:] if n.func.attr in ('insert', 'setdefault') else n.args)
+                    vals.extend(k.value for k in n.keywords)
+                for v in vals:
+                    for k, x in self.of(fi, v, depth + 1).items():
+                        if k == K_LAZY and isinstance(n, ast.Call) and n.func.attr in ('extend', 'update') and any(x is a for a in n.args):
+                            continue          # consumed on the spot
+                        out.setdefault(k, x)
+        finally:
+            self._busy.discard(key)
+        return out
+
+
+def _json_dev_mode(repo, meta, init):
+    """True only when every renderer named in the route table of the meta application is provably a JSON renderer in
+    'dev mode' (which falls back to repr() instead of rejecting a value)."""
+    found = []
+    for n in _walk(init):
+        if isinstance(n, ast.Tuple) and len(n.elts) == 3 and isinstance(n.elts[2], ast.Name):
+            kind, m, obj = repo.resolve(meta, n.elts[2].id)
+            if kind != 'value' or len(obj) != 1 or not isinstance(obj[0], ast.Call):
+                continue
+            call = obj[0]
+            c = repo.resolve_class(m, call.func)
+            if isinstance(c, str) or repo.find_method(c, '__init__') is None:
+                continue
+            b = bind_args(repo.find_method(c, '__init__'), 1, call)
+            if b is None:
+                found.append(False)
+                continue
+            v = b.get('dev_mode')
+            if v is None:
+                a = repo.find_method(c, '__init__').node.args
+                names = [x.arg for x in a.posonlyargs + a.args]
+                dflt = dict(zip(names[len(names) - len(a.defaults):], a.defaults))
+                v = dflt.get('dev_mode')
+            found.append(isinstance(v, ast.Constant) and v.value is True)
+    return bool(found) and all(found)
+
+
+def _r18f(rep, repo, meta):
+    """Whatever the views return is fed to the JSON encoder (and to the templates): no value the encoder is certain to
+    reject -- a class, a function / bound method, an exception object, a lazy iterator, a module, a plain instance of
+    a class of the tree -- is put into a page context, on any path."""
+    gmn = meta.func('MetaApplication.get_main')
+    init = meta.func('MetaApplication.__init__')
+    if _json_dev_mode(repo, meta, init):
+        rep.ok('R18.f', '%s::json renderer' % META, 'the JSON view is rendered in dev mode: values the encoder does not know are shown by repr()', meta)
+        return
+    ctx = _context_functions(repo, meta)
+    kinds = _Kinds(repo)
+    n = 0
+    for fi in ctx + [gmn]:
+        gen = _is_generator(fi)
+        outs = [r.value for r in returns_of(fi) if r.value is not None]
+        if gen:
+            outs += [y.value for y in walk_body(fi.node) if isinstance(y, (ast.Yield, ast.YieldFrom)) and y.value is not None]
+        bad = {}
+        for v in outs:
+            for k, x in kinds.of(fi, v).items():
+                bad.setdefault(k, x)
+        n += 1
+        first = sorted(bad.items(), key=lambda kv: kv[0])[0] if bad else None
+        rep.check('R18.f', fkey(fi, 'kinds of the context values'), not bad,
+                  '%d returned value(s): texts, numbers, containers, attributes of host objects, results of calls' % len(outs) if not bad else
+                  '%s puts %s (%s) into the page context: the JSON encoder rejects it (TypeError => the JSON view answers 500)'
+                  % (fi.qualname, first[0], short(first[1], 50)), meta, first[1] if bad else fi.node)
+    rep.floor('R18.f', 8)
 
 
 # ------------------------------------------------------------------------------------------ R18.b
@@ -2228,6 +2522,7 @@ def run(rep):
     rep.rule('R18.b', 'attribute reads in get_mw_infos and in middleware __repr__ methods')
     rep.rule('R18.c', 'must-catch around each peripheral call')
     rep.rule('R18.d', 'Dust reference escaping of the meta templates')
+    rep.rule('R18.f', 'abstract kinds: no class / callable / exception / lazy iterator / module / plain instance is put into a page context')
     rep.rule('R18.e', 'taint: no __repr__ / __str__ / generated repr of a class of the tree, no method the views call on a host object, prints resource values / key material / the instance dictionary')
 
     def group(fn):
@@ -2242,5 +2537,5 @@ def run(rep):
                 raise AnalysisError('%s: unexpected shape (%s: %s)' % (fn.__name__.strip('_'), type(e).__name__, e))
         rule_group.__name__ = fn.__name__.strip('_')
         return rule_group
-    for fn in (_r18a, _r18b, _r18c, _r18d, _r18e):
+    for fn in (_r18a, _r18b, _r18c, _r18d, _r18e, _r18f):
         rep.guard(group(fn))
